@@ -117,7 +117,8 @@ def primBody (f : FieldInfo) (obj : GoVal) (cur : Option TfVal) (t : Option TfTy
             | _ => (k.zeroSc, [Diag.writeConv f.path f.tf.elemValueType])
           if f.isPlaceholder then .ok ((true, p), ds)
           else if f.tf.zeroValue != "" then
-            -- v.Null = <ValueCastToType>(field) == <ZeroValue>
+            -- v.Null = [obj.<Parent> == nil ||] <ValueCastToType>(field) == <ZeroValue>
+            if f.parentIsOptionalEmbed && parentIsNil f obj then .ok ((true, p), ds) else
             match rd with
             | .ok (.sc s) =>
               match f.castTo s with
@@ -238,9 +239,10 @@ def listOrMapBody (rec : ToRec) (info : FieldInfo) (msg : Option MsgInfo) (subEm
     let srcElems : Option (List GoVal) := match src with | .slice o => o | _ => none
     let n := (srcElems.getD []).length
     -- c, ok := tf.Attrs[name].(types.List)
+    -- re-used: `if c.Elems == nil || len(obj.F) != len(c.Elems) { c.Elems = make(…, len(obj.F)) }`
     let (cnull, celems, cety) : Bool × List TfVal × Option TfTy :=
       match cur with
-      | some (.list _ nl (some es) et) => (nl, es, et)
+      | some (.list _ nl (some es) et) => (nl, if es.length != n then List.replicate n .nilv else es, et)
       | some (.list _ nl none et) => (nl, List.replicate n .nilv, et)
       | _ => (true, List.replicate n .nilv, ety)
     match srcElems with
@@ -260,10 +262,10 @@ def listOrMapBody (rec : ToRec) (info : FieldInfo) (msg : Option MsgInfo) (subEm
         | .stuck w => .stuck w
   else
     let srcElems : Option (List (String × GoVal)) := match src with | .map o => o | _ => none
+    -- re-used: `c.Elems = make(map[string]attr.Value, len(obj.F))` (always rebuilt)
     let (cnull, celems, cety) : Bool × List (String × TfVal) × Option TfTy :=
       match cur with
-      | some (.map _ nl (some es) et) => (nl, es, et)
-      | some (.map _ nl none et) => (nl, [], et)
+      | some (.map _ nl _ et) => (nl, [], et)
       | _ => (true, [], ety)
     match srcElems with
     | none => .ok (st.set info.nameSnake (.map false cnull (some celems) cety))
